@@ -911,7 +911,11 @@ Definition row_matches (csc : tschema) (c : name) (v : Z) (r : row) : bool :=
 Definition proj_idx (idxs : list nat) (r : row) : option (list value) :=
   fold_right (fun i acc => match nth_error r i, acc with Some v, Some l => Some (v :: l) | _, _ => None end) (Some []) idxs.
 
-(** the stored table's PRIMARY KEY hash index maps a key to the LAST row carrying it *)
+(** the stored table's PRIMARY KEY hash index (hidden state of [Table]) is described by its content
+    after a rebuild: it maps a key to the LAST row carrying it.  Assumption: the real hash index is
+    in step with the rows whenever the fast path of DELETE consults it; ADD/DROP/CHANGE COLUMN can
+    leave it out of step until the next rebuild (DELETE, TRUNCATE, ADD PRIMARY KEY/UNIQUE, RENAME), and
+    the harness issues no primary-key point delete on a table whose real hash index is out of step *)
 Fixpoint last_pk_match (idxs : list nat) (k : list value) (rows : list row) (i : nat) (acc : option nat) : option nat :=
   match rows with
   | [] => acc
